@@ -58,6 +58,10 @@ def acc_array(rows, reuse=False, readonly_ok=True):
                 wide = np.zeros((a.shape[0], 8), dtype=int)
                 wide[:, ::2] = a
                 return wide[:, ::2]
+            if h == 3:
+                # a narrower integer type that still holds every vertex index (what a memory-conscious caller stores)
+                top = int(a.shape[0])
+                return a.astype(np.int8 if top <= 127 and zlib.crc32(a.tobytes() + b"n") % 2 else np.int16 if top <= 32767 else np.int32)
             if h == 2 and readonly_ok:
                 a.setflags(write=False)        # read-only (numpy.frombuffer, a memory-mapped file): nothing but arc removal writes
                 return a
@@ -467,6 +471,21 @@ def local_cfg(rng, k, decidable_only=False):
         lo = rng.choice(grid)
         hi = rng.choice([x for x in grid if x >= lo] + [lo])
         gc = [lo, hi]
+        fam = rng.random()
+        if fam < 0.15:
+            # "centre +- j / window" and "j / window" bounds, as a user computes them: products and quotients with the window that
+            # round differently (0.5 - 1/6 is 0.33333333333333337, times 6 it is exactly 2.0, while 2/6 is below it)
+            j = rng.randint(0, max(0, k // 2))
+            m = rng.choice([k, k, 2 * k, k + 1])
+            gc = [0.5 - j / m, 0.5 + j / m]
+        elif fam < 0.3:
+            a, b = sorted([rng.randint(0, k), rng.randint(0, k)])
+            lo, hi = a / k, b / k
+            if rng.random() < 0.5:
+                lo = math.nextafter(lo, rng.choice([0.0, 1.0]))
+            if rng.random() < 0.5:
+                hi = math.nextafter(hi, rng.choice([0.0, 1.0]))
+            gc = [min(lo, hi), max(lo, hi)]
     motifs = None
     if rng.random() < 0.5:
         motifs = ["".join(rng.choice(NUC) for _ in range(rng.randint(1, k))) for _ in range(rng.randint(1, 3))]
@@ -652,3 +671,76 @@ def checksum_twin(rng, bits):
         for o in CRC32_OFFSETS:
             out[start + o] ^= 1
     return out if out != list(bits) else None
+
+
+# the documented parameter order of every public function (the pinned tree's signatures = its documentation)
+API_ORDER = {
+    'encode': ['binary_message', 'accessor', 'start_index', 'is_faster', 'vt_length', 'shuffles', 'need_path', 'verbose'],
+    'decode': ['dna_sequence', 'bit_length', 'accessor', 'start_index', 'is_faster', 'vt_check', 'shuffles', 'verbose'],
+    'set_vt': ['dna_sequence', 'vt_length'],
+    'repair_dna': ['dna_sequence', 'accessor', 'start_index', 'observed_length', 'vt_check', 'has_indel', 'heap_size'],
+    'find_vertices': ['observed_length', 'bio_filter', 'verbose'],
+    'connect_valid_graph': ['observed_length', 'vertices', 'verbose'],
+    'connect_coding_graph': ['observed_length', 'vertices', 'threshold', 'verbose'],
+    'remove_nasty_arc': ['accessor', 'latter_map', 'iteration', 'has_insertion', 'has_deletion', 'verbose'],
+    'create_random_shuffles': ['observed_length', 'random_seed', 'verbose'],
+    'get_complete_accessor': ['observed_length', 'verbose'],
+    'accessor_to_adjacency_matrix': ['accessor', 'maximum_length', 'verbose'],
+    'adjacency_matrix_to_accessor': ['matrix', 'verbose'],
+    'accessor_to_latter_map': ['accessor', 'verbose'],
+    'latter_map_to_accessor': ['latter_map', 'observed_length', 'threshold', 'verbose'],
+    'remove_useless': ['latter_map', 'threshold', 'verbose'],
+    'obtain_formers': ['current', 'observed_length'],
+    'obtain_latters': ['current', 'observed_length'],
+    'obtain_vertices': ['accessor'],
+    'obtain_leaf_vertices': ['vertex_index', 'depth', 'accessor', 'latter_map'],
+    'approximate_capacity': ['accessor', 'tolerance_level', 'repeats', 'maximum_iteration', 'process', 'verbose'],
+    'calculate_intersection_score': ['latter_map', 'observed_length', 'has_insertion', 'has_deletion', 'verbose'],
+    'bit_to_number': ['bit_array', 'is_string', 'verbose'],
+    'number_to_bit': ['decimal_number', 'bit_length'],
+    'dna_to_number': ['dna_sequence', 'is_string'],
+    'number_to_dna': ['decimal_number', 'dna_length'],
+}
+
+
+def api(name, **kw):
+    """call dsw.<name> with the given arguments under one of three CALLING CONVENTIONS, chosen by the scalar arguments (so that a
+    replay makes the same call): all by keyword in the documented order, the leading ones positionally in the documented order, or
+    all by keyword in the reverse order.  The three are the same call; the answer must not depend on which is used."""
+    order = API_ORDER[name]
+    assert set(kw) <= set(order), (name, sorted(kw))
+    f = getattr(dsw, name)
+    if os.environ.get("VERIF_LAYOUT", "1") == "0":
+        return f(**kw)
+    key = name + repr(sorted((k, v) for k, v in kw.items() if isinstance(v, (int, bool, str, type(None))) and len(repr(v)) < 40))
+    h = zlib.crc32(key.encode("utf-8", "surrogatepass")) % 3
+    if h == 0:
+        return f(**{k: kw[k] for k in order if k in kw})
+    if h == 1:
+        pos = []
+        for k in order:
+            if k not in kw:
+                break
+            pos.append(kw[k])
+        rest = {k: kw[k] for k in order[len(pos):] if k in kw}
+        return f(*pos, **rest)
+    return f(**{k: kw[k] for k in reversed(order) if k in kw})
+
+
+_VIEWS = {}
+
+
+def shared_view(rows):
+    """ONE long-lived READ-ONLY view object per shape of an owner array whose content is overwritten for every case (a read-only view
+    only refuses writes through itself: its owner can change, e.g. by the library's own in-place arc removal).  Results must depend
+    on what the array holds now, never on what this object held in an earlier call."""
+    a = np.array(rows, dtype=int).reshape(-1, 4)
+    ent = _VIEWS.get(a.shape)
+    if ent is None:
+        owner = a.copy()
+        view = owner.view()
+        view.setflags(write=False)
+        ent = _VIEWS[a.shape] = (owner, view)
+    else:
+        ent[0][:] = a
+    return ent[1]
